@@ -100,6 +100,7 @@ def run(ctx):
     R = ctx.report
     generic.cli_converters(ctx, "C16-D3b CLI converters", "suit_generator.cmd_image", 4)
     generic.subcommand_dispatch(ctx, "C16-D3c sub-command dispatch", "suit_generator.cmd_image", 2)
+    generic.kwargs_keys_are_dests(ctx, "C16-D3d keyword reads are option destinations", "suit_generator.cmd_image")
     _u32 = [0, 1, 15, 16, 0x0E1EF340, 0x7FFFFFFF, 0x80000000, 0x80000001, 0xFFFFFFF0, 0xFFFFFFFF]
     generic.no_refusal_on_grid(ctx, "C16-D4 no legal address or cache count is refused", ctx.repo.func(IMG, "ImageCreator.create_files_for_update"),
                                {"update_candidate_info_address": _u32, "dfu_partition_address": _u32, "dfu_max_caches": [0, 1, 2, 6, 15, 16]},
